@@ -168,6 +168,8 @@ func c17Run(s *Shard) {
 		{"function": "expFromZero", "params": M{"alpha": 1.0, "multiplier": 1.0, "queryNumber": 0}},
 		{"function": "expFromZero", "params": M{"alpha": 0.5, "multiplier": 2.0, "queryNumber": 1}},
 		{"function": "expFromZero", "params": M{"alpha": 0.25, "multiplier": -1.0, "queryNumber": 2}},
+		{"function": "expFromZero", "params": M{"alpha": 0.4, "multiplier": 0.0, "queryNumber": 3}},
+		{"function": "expFromZero", "params": M{"alpha": 0.4, "queryNumber": 3}},
 	}
 	bounds := []M{{}, {"allowedValuesRangeScaling": 1.0}, {"allowedValuesRangeScaling": 0.5}, {"allowedValuesRangeScaling": 2.0},
 		{"disallowNegativeValues": true}, {"allowedValuesRangeScaling": 0.5, "disallowNegativeValues": true}, {"allowedValuesRangeScaling": 2.0, "disallowNegativeValues": true}}
@@ -179,7 +181,7 @@ func c17Run(s *Shard) {
 	sampled := false
 	for _, method := range allMethods {
 		for _, subset := range []bool{false, true} {
-			for _, variant := range []int{0, 1, 2} { // 0 observed range, 1 declared range, 2 negative values
+			for _, variant := range []int{0, 1, 2, 3} { // 0 observed range, 1 declared range, 2 negative values, 3 one criterion with a single value
 				root := rootRequest(method, subset, variant == 1)
 				if variant == 2 {
 					root = negativeVariant(root) // c1 strictly negative for every known alternative
@@ -188,8 +190,13 @@ func c17Run(s *Shard) {
 						cm["c2"] = asF(cm["c2"]) - 2 // c2 straddles zero
 					}
 				}
+				if variant == 3 {
+					for _, a := range asL(root["knownAlternatives"]) {
+						asM(asM(a)["criteria"])["c3"] = 2.0
+					}
+				}
 				for pi, pre := range prefixes {
-					if variant == 2 && pi > 0 {
+					if variant >= 2 && pi > 0 {
 						continue
 					}
 					if !s.Take() {
